@@ -1,9 +1,13 @@
 // C08 harness: Interpolation / Interpolation_2D integrals, extrema and prefactor operations (grammar: checks/C08.py).
 // One line = one object (made by one of the constructors) + a list of operations. Set_Prefactor / Multiply act on the object;
 // in the fresh modes every query runs on a copy of it, in the history modes on the object itself.
+// Sessions (s1 r1 s2 r2): several objects that are constructed, copied, moved, swapped and destroyed between the queries.
+// Long tables (b1 k1): 10^3 .. 10^5 points given by rule.
 #include "common.hpp"
 #include "libphysica/Numerics.hpp"
 #include <algorithm>
+#include <functional>
+#include <memory>
 using namespace libphysica;
 static std::vector<double> scaled(double dim, std::vector<double> v)
 {
@@ -13,173 +17,439 @@ static std::vector<double> scaled(double dim, std::vector<double> v)
 	return v;
 }
 static const double G3[3] = {0.5 - std::sqrt(0.6) / 2.0, 0.5, 0.5 + std::sqrt(0.6) / 2.0};
-// the operations of a 1-D case on the object obj (xa = its abscissae after the unit scaling)
-static void run1(Interpolation& obj, const std::vector<double>& xa, bool fresh, vh::Reader& r, vh::Out& o)
+// where the queries of a 1-D case go: mode 0 = the one live object, 1 = a copy made for every single call (fresh search state),
+// 2 = a copy made once per operation (long tables)
+struct Ctx1
 {
+	Interpolation* obj = nullptr;
+	Interpolation tmp;
+	int mode = 1;
+	Interpolation& cur()
 	{
-		// fresh: every query on a copy of the object (fresh search state); otherwise every query on the one live object, so that
-		// Locate's cached index / search-method switch sees the whole history (the model is the fresh-object semantics).
-		Interpolation tmp;
-		auto cur   = [&obj, &tmp, fresh]() -> Interpolation& { if(!fresh) return obj; tmp = obj; return tmp; };
-		auto f	   = [&cur](double x) { return cur().Interpolate(x); };
-		auto integ = [&cur](double a, double b) { return cur().Integrate(a, b); };
-		auto lmin  = [&cur](double a, double b) { return cur().Local_Minimum(a, b); };
-		auto lmax  = [&cur](double a, double b) { return cur().Local_Maximum(a, b); };
-		auto gmin  = [&cur]() { return cur().Global_Minimum(); };
-		auto gmax  = [&cur]() { return cur().Global_Maximum(); };
-		long nq				   = r.integer();
-		for(long q = 0; q < nq; q++)
+		if(mode == 0)
+			return *obj;
+		if(mode == 1)
+			tmp = *obj;
+		return tmp;
+	}
+	void begin_op()
+	{
+		if(mode == 2)
+			tmp = *obj;
+	}
+};
+// one operation w of a 1-D case (xa = the abscissae of the object after the unit scaling); false = unknown operation
+static bool op1(const std::string& w, Ctx1& cx, const std::vector<double>& xa, vh::Reader& r, vh::Out& o)
+{
+	Interpolation& obj = *cx.obj;
+	auto f	   = [&cx](double x) { return cx.cur().Interpolate(x); };
+	auto integ = [&cx](double a, double b) { return cx.cur().Integrate(a, b); };
+	auto lmin  = [&cx](double a, double b) { return cx.cur().Local_Minimum(a, b); };
+	auto lmax  = [&cx](double a, double b) { return cx.cur().Local_Maximum(a, b); };
+	auto gmin  = [&cx]() { return cx.cur().Global_Minimum(); };
+	auto gmax  = [&cx]() { return cx.cur().Global_Maximum(); };
+	if(w == "P")
+	{
+		obj.Set_Prefactor(r.num());
+		return true;
+	}
+	if(w == "X")
+	{
+		obj.Multiply(r.num());
+		return true;
+	}
+	cx.begin_op();
+	if(w == "I")
+		o.f(f(r.num()));
+	else if(w == "D")
+	{
+		long k	 = r.integer();
+		double x = r.num();
+		o.f(cx.cur().Derivative(x, (unsigned int) k));
+	}
+	else if(w == "N")
+	{
+		double a = r.num(), b = r.num();
+		o.f(integ(a, b));
+	}
+	else if(w == "m")
+	{
+		double a = r.num(), b = r.num();
+		o.f(lmin(a, b));
+	}
+	else if(w == "M")
+	{
+		double a = r.num(), b = r.num();
+		o.f(lmax(a, b));
+	}
+	else if(w == "g")
+		o.f(gmin());
+	else if(w == "G")
+		o.f(gmax());
+	else if(w == "E")
+	{
+		double a = r.num(), b = r.num();
+		long n = r.integer();
+		o.f(lmin(a, b));
+		o.f(lmax(a, b));
+		for(long k = 0; k <= n; k++)
+			o.f(f(k == n ? b : a + (b - a) * double(k) / double(n)));
+	}
+	else if(w == "Z")
+	{
+		long n = r.integer();
+		o.f(gmin());
+		o.f(gmax());
+		double a = xa.front(), b = xa.back();
+		for(long k = 0; k <= n; k++)
+			o.f(f(k == n ? b : a + (b - a) * double(k) / double(n)));
+		// two evaluations inside the 1 % extrapolation tolerance
+		o.f(f(a - 0.5 * (1e-2 * (xa[1] - xa[0]))));
+		o.f(f(b + 0.5 * (1e-2 * (xa[xa.size() - 1] - xa[xa.size() - 2]))));
+	}
+	else if(w == "Q" || w == "W")
+	{
+		// Q: both integrals and the three Gauss nodes of every piece between knots; W (long tables): both integrals and the Gauss sum itself
+		double a = r.num(), b = r.num();
+		o.f(integ(a, b));
+		o.f(integ(b, a));
+		double lo = std::min(a, b), hi = std::max(a, b);
+		std::vector<double> brk = {lo};
+		for(double x : xa)
+			if(x > lo && x < hi)
+				brk.push_back(x);
+		brk.push_back(hi);
+		double sum = 0.0;
+		for(size_t k = 0; k + 1 < brk.size(); k++)
 		{
-			std::string w = r.word();
-			if(w == "P")
-				obj.Set_Prefactor(r.num());
-			else if(w == "X")
-				obj.Multiply(r.num());
-			else if(w == "I")
-				o.f(f(r.num()));
-			else if(w == "D")
+			double v[3];
+			for(int q = 0; q < 3; q++)
+				v[q] = f(brk[k] + (brk[k + 1] - brk[k]) * G3[q]);
+			if(w == "Q")
+				for(int q = 0; q < 3; q++)
+					o.f(v[q]);
+			else
+				sum += (brk[k + 1] - brk[k]) * (5.0 * v[0] + 8.0 * v[1] + 5.0 * v[2]) / 18.0;
+		}
+		if(w == "W")
+			o.f(sum);
+	}
+	else if(w == "A")
+	{
+		double a = r.num(), b = r.num(), c = r.num();
+		o.f(integ(a, b));
+		o.f(integ(b, c));
+		o.f(integ(a, c));
+	}
+	else if(w == "B")
+	{
+		double a = r.num(), b = r.num();
+		o.f(integ(a, b));
+		o.f(lmin(a, b));
+		o.f(lmax(a, b));
+	}
+	else if(w == "U")
+	{
+		double a = r.num(), x = r.num(), d = r.num();
+		o.f(integ(a, x + d));
+		o.f(integ(a, x - d));
+		o.f(f(x));
+		o.f(cx.cur().Derivative(x, 2));
+	}
+	else
+		return false;
+	return true;
+}
+// the operations of a 1-D case on the object obj
+static void run1(Interpolation& obj, const std::vector<double>& xa, int mode, vh::Reader& r, vh::Out& o)
+{
+	Ctx1 cx;
+	cx.obj	= &obj;
+	cx.mode = mode;
+	long nq = r.integer();
+	for(long q = 0; q < nq; q++)
+		if(!op1(r.word(), cx, xa, r, o))
+		{
+			o.w("HARNESSERR unknown_op");
+			return;
+		}
+}
+struct Ctx2
+{
+	Interpolation_2D* obj = nullptr;
+	Interpolation_2D tmp;
+	bool fresh = true;
+	Interpolation_2D& cur()
+	{
+		if(!fresh)
+			return *obj;
+		tmp = *obj;
+		return tmp;
+	}
+};
+// one operation of a 2-D case
+static bool op2(const std::string& w, Ctx2& cx, const std::vector<double>& xa, const std::vector<double>& ya, vh::Reader& r, vh::Out& o)
+{
+	Interpolation_2D& obj = *cx.obj;
+	if(w == "P")
+		obj.Set_Prefactor(r.num());
+	else if(w == "X")
+		obj.Multiply(r.num());
+	else if(w == "I")
+	{
+		double x = r.num(), y = r.num();
+		o.f(cx.cur().Interpolate(x, y));
+	}
+	else if(w == "g")
+		o.f(cx.cur().Global_Minimum());
+	else if(w == "G")
+		o.f(cx.cur().Global_Maximum());
+	else if(w == "Z")
+	{
+		long n = r.integer();
+		o.f(cx.cur().Global_Minimum());
+		o.f(cx.cur().Global_Maximum());
+		double x0 = xa.front(), x1 = xa.back(), y0 = ya.front(), y1 = ya.back();
+		for(long a = 0; a <= n; a++)
+		{
+			double x = (a == n) ? x1 : x0 + (x1 - x0) * double(a) / double(n);
+			for(long b = 0; b <= n; b++)
 			{
-				long k	 = r.integer();
-				double x = r.num();
-				o.f(cur().Derivative(x, (unsigned int) k));
+				double y = (b == n) ? y1 : y0 + (y1 - y0) * double(b) / double(n);
+				o.f(cx.cur().Interpolate(x, y));
 			}
-			else if(w == "N")
-			{
-				double a = r.num(), b = r.num();
-				o.f(integ(a, b));
-			}
-			else if(w == "m")
-			{
-				double a = r.num(), b = r.num();
-				o.f(lmin(a, b));
-			}
-			else if(w == "M")
-			{
-				double a = r.num(), b = r.num();
-				o.f(lmax(a, b));
-			}
-			else if(w == "g")
-				o.f(gmin());
-			else if(w == "G")
-				o.f(gmax());
-			else if(w == "E")
-			{
-				double a = r.num(), b = r.num();
-				long n = r.integer();
-				o.f(lmin(a, b));
-				o.f(lmax(a, b));
-				for(long k = 0; k <= n; k++)
-					o.f(f(k == n ? b : a + (b - a) * double(k) / double(n)));
-			}
-			else if(w == "Z")
-			{
-				long n = r.integer();
-				o.f(gmin());
-				o.f(gmax());
-				double a = xa.front(), b = xa.back();
-				for(long k = 0; k <= n; k++)
-					o.f(f(k == n ? b : a + (b - a) * double(k) / double(n)));
-				// two evaluations inside the 1 % extrapolation tolerance
-				o.f(f(a - 0.5 * (1e-2 * (xa[1] - xa[0]))));
-				o.f(f(b + 0.5 * (1e-2 * (xa[xa.size() - 1] - xa[xa.size() - 2]))));
-			}
-			else if(w == "Q")
-			{
-				double a = r.num(), b = r.num();
-				o.f(integ(a, b));
-				o.f(integ(b, a));
-				double lo = std::min(a, b), hi = std::max(a, b);
-				std::vector<double> brk = {lo};
-				for(double x : xa)
-					if(x > lo && x < hi)
-						brk.push_back(x);
-				brk.push_back(hi);
-				for(size_t k = 0; k + 1 < brk.size(); k++)
-					for(double g : G3)
-						o.f(f(brk[k] + (brk[k + 1] - brk[k]) * g));
-			}
-			else if(w == "A")
-			{
-				double a = r.num(), b = r.num(), c = r.num();
-				o.f(integ(a, b));
-				o.f(integ(b, c));
-				o.f(integ(a, c));
-			}
-			else if(w == "B")
-			{
-				double a = r.num(), b = r.num();
-				o.f(integ(a, b));
-				o.f(lmin(a, b));
-				o.f(lmax(a, b));
-			}
-			else if(w == "U")
-			{
-				double a = r.num(), x = r.num(), d = r.num();
-				o.f(integ(a, x + d));
-				o.f(integ(a, x - d));
-				o.f(f(x));
-				o.f(cur().Derivative(x, 2));
-			}
+		}
+		// one evaluation inside the 1 % extrapolation tolerance
+		o.f(cx.cur().Interpolate(x0 - 0.5 * (1e-2 * (xa[1] - xa[0])), y0));
+	}
+	else
+		return false;
+	return true;
+}
+// the operations of a 2-D case; fresh: every query on a copy of the object; otherwise on the one live object (its two index searches keep their history)
+static void run2(Interpolation_2D& obj, const std::vector<double>& xa, const std::vector<double>& ya, bool fresh, vh::Reader& r, vh::Out& o)
+{
+	Ctx2 cx;
+	cx.obj	 = &obj;
+	cx.fresh = fresh;
+	long nq	 = r.integer();
+	for(long q = 0; q < nq; q++)
+		if(!op2(r.word(), cx, xa, ya, r, o))
+		{
+			o.w("HARNESSERR unknown_op");
+			return;
+		}
+}
+// ---- several objects in one program: construction, copy construction / assignment, move, destruction, swap, by-value parameter, std::vector element
+template <class Obj>
+static Obj by_value(Obj o)
+{
+	return o;
+}
+template <class Obj>
+struct Slots
+{
+	std::vector<std::unique_ptr<Obj>> p;   // null = no object; an object that was moved from stays allocated (it may be assigned to)
+	std::vector<int> tab;				   // the table a slot holds (-1: none), for the sampling grids of the harness
+	std::vector<std::function<Obj()>> make;
+	int cur = 0;
+	// returns 1 = done, 0 = not a lifecycle word
+	int life(const std::string& w, vh::Reader& r)
+	{
+		if(w == "at")
+		{
+			cur = (int) r.integer();
+			return 1;
+		}
+		if(w == "mk" || w == "mn")	 // slot k = Obj(table t): assigned to the object in place (mk) / the old object destroyed first, then a new one (mn)
+		{
+			long k = r.integer(), t = r.integer();
+			if(w == "mk" && p[k])
+				*p[k] = make[t]();
 			else
 			{
-				o.w("HARNESSERR unknown_op");
-				return;
+				p[k].reset();
+				p[k].reset(new Obj(make[t]()));
 			}
+			tab[k] = (int) t;
+			return 1;
+		}
+		if(w == "cp")	// copy assignment (copy construction when the slot holds no object)
+		{
+			long k = r.integer(), j = r.integer();
+			if(p[k])
+				*p[k] = *p[j];
+			else
+				p[k].reset(new Obj(*p[j]));
+			tab[k] = tab[j];
+			return 1;
+		}
+		if(w == "cc")	// copy construction of a new object; the object the slot held is destroyed afterwards
+		{
+			long k = r.integer(), j = r.integer();
+			Obj* q = new Obj(*p[j]);
+			p[k].reset(q);
+			tab[k] = tab[j];
+			return 1;
+		}
+		if(w == "mv")	// move assignment / construction; the source stays behind as a moved-from object
+		{
+			long k = r.integer(), j = r.integer();
+			if(p[k])
+				*p[k] = std::move(*p[j]);
+			else
+				p[k].reset(new Obj(std::move(*p[j])));
+			tab[k] = tab[j];
+			tab[j] = -1;
+			return 1;
+		}
+		if(w == "rm")
+		{
+			long k = r.integer();
+			p[k].reset();
+			tab[k] = -1;
+			return 1;
+		}
+		if(w == "sw")
+		{
+			long k = r.integer(), j = r.integer();
+			std::swap(*p[k], *p[j]);
+			std::swap(tab[k], tab[j]);
+			return 1;
+		}
+		if(w == "vec")	 // n copies in a growing std::vector, one of them copied out, the vector destroyed
+		{
+			long k = r.integer(), j = r.integer(), n = r.integer();
+			int t = tab[j];
+			{
+				std::vector<Obj> v;
+				for(long i = 0; i < n; i++)
+					v.push_back(*p[j]);
+				Obj* q = new Obj(v[n / 2]);
+				p[k].reset(q);
+			}
+			tab[k] = t;
+			return 1;
+		}
+		if(w == "val")	 // through a by-value parameter and a returned value
+		{
+			long k = r.integer(), j = r.integer();
+			int t  = tab[j];
+			Obj* q = new Obj(by_value<Obj>(*p[j]));
+			p[k].reset(q);
+			tab[k] = t;
+			return 1;
+		}
+		return 0;
+	}
+};
+static void session1(bool fresh, vh::Reader& r, vh::Out& o)
+{
+	Slots<Interpolation> S;
+	std::vector<std::vector<double>> xas;
+	long nt = r.integer();
+	for(long t = 0; t < nt; t++)
+	{
+		std::string kind = r.word();
+		double xd = r.num(), fd = r.num();
+		if(kind == "L")
+		{
+			std::vector<double> xs = r.list(), ys = r.list();
+			xas.push_back(scaled(xd, xs));
+			S.make.push_back([xs, ys, xd, fd]() { return Interpolation(xs, ys, xd, fd); });
+		}
+		else
+		{
+			std::vector<std::vector<double>> rows = r.table();
+			std::vector<double> xs;
+			for(auto& row : rows)
+				xs.push_back(row[0]);
+			xas.push_back(scaled(xd, xs));
+			S.make.push_back([rows, xd, fd]() { return Interpolation(rows, xd, fd); });
+		}
+	}
+	long ns = r.integer();
+	S.p.resize(ns);
+	S.tab.assign(ns, -1);
+	Ctx1 cx;
+	cx.mode = fresh ? 1 : 0;
+	long nq = r.integer();
+	for(long q = 0; q < nq; q++)
+	{
+		std::string w = r.word();
+		if(S.life(w, r))
+			continue;
+		cx.obj = S.p[S.cur].get();
+		if(!cx.obj || S.tab[S.cur] < 0 || !op1(w, cx, xas[S.tab[S.cur]], r, o))
+		{
+			o.w("HARNESSERR bad_session_op");
+			return;
 		}
 	}
 }
-// the operations of a 2-D case
-static void run2(Interpolation_2D& obj, const std::vector<double>& xa, const std::vector<double>& ya, bool fresh, vh::Reader& r, vh::Out& o)
+static void session2(bool fresh, vh::Reader& r, vh::Out& o)
 {
+	Slots<Interpolation_2D> S;
+	std::vector<std::vector<double>> xas, yas;
+	long nt = r.integer();
+	for(long t = 0; t < nt; t++)
 	{
-		// fresh: every query on a copy of the object; otherwise on the one live object (its two index searches keep their history)
-		Interpolation_2D tmp;
-		auto cur = [&obj, &tmp, fresh]() -> Interpolation_2D& { if(!fresh) return obj; tmp = obj; return tmp; };
-		long nq = r.integer();
-		for(long q = 0; q < nq; q++)
+		double xd = r.num(), yd = r.num(), fd = r.num();
+		std::vector<double> xs = r.list(), ys = r.list();
+		std::vector<std::vector<double>> ft = r.table();
+		xas.push_back(scaled(xd, xs));
+		yas.push_back(scaled(yd, ys));
+		S.make.push_back([xs, ys, ft, xd, yd, fd]() { return Interpolation_2D(xs, ys, ft, xd, yd, fd); });
+	}
+	long ns = r.integer();
+	S.p.resize(ns);
+	S.tab.assign(ns, -1);
+	Ctx2 cx;
+	cx.fresh = fresh;
+	long nq	 = r.integer();
+	for(long q = 0; q < nq; q++)
+	{
+		std::string w = r.word();
+		if(S.life(w, r))
+			continue;
+		cx.obj = S.p[S.cur].get();
+		if(!cx.obj || S.tab[S.cur] < 0 || !op2(w, cx, xas[S.tab[S.cur]], yas[S.tab[S.cur]], r, o))
 		{
-			std::string w = r.word();
-			if(w == "P")
-				obj.Set_Prefactor(r.num());
-			else if(w == "X")
-				obj.Multiply(r.num());
-			else if(w == "I")
-			{
-				double x = r.num(), y = r.num();
-				o.f(cur().Interpolate(x, y));
-			}
-			else if(w == "g")
-			{
-				o.f(cur().Global_Minimum());
-			}
-			else if(w == "G")
-			{
-				o.f(cur().Global_Maximum());
-			}
-			else if(w == "Z")
-			{
-				long n = r.integer();
-				o.f(cur().Global_Minimum());
-				o.f(cur().Global_Maximum());
-				double x0 = xa.front(), x1 = xa.back(), y0 = ya.front(), y1 = ya.back();
-				for(long a = 0; a <= n; a++)
-				{
-					double x = (a == n) ? x1 : x0 + (x1 - x0) * double(a) / double(n);
-					for(long b = 0; b <= n; b++)
-					{
-						double y = (b == n) ? y1 : y0 + (y1 - y0) * double(b) / double(n);
-						o.f(cur().Interpolate(x, y));
-					}
-				}
-				// one evaluation inside the 1 % extrapolation tolerance
-				o.f(cur().Interpolate(x0 - 0.5 * (1e-2 * (xa[1] - xa[0])), y0));
-			}
-			else
-			{
-				o.w("HARNESSERR unknown_op");
-				return;
-			}
+			o.w("HARNESSERR bad_session_op");
+			return;
 		}
+	}
+}
+// ---- long tables given by rule (checks/C08.py, rule_table): integers scaled by powers of two, so that the three programs build the same doubles
+static void rule_table(vh::Reader& r, std::vector<double>& xs, std::vector<double>& ys)
+{
+	long N = r.integer();
+	long long s = r.integer();
+	long xk = r.integer();
+	long long X0 = r.integer();
+	long jit = r.integer(), yk = r.integer();
+	long long p1 = r.integer(), p2 = r.integer();
+	long ym = r.integer();
+	auto next = [&s]() { s = (s * 1103515245LL + 12345LL) & 0x7fffffffLL; return s >> 16; };
+	double ux = std::ldexp(1.0, (int) xk), uy = std::ldexp(1.0, (int) ym);
+	for(long i = 0; i < N; i++)
+		xs.push_back(double(X0 + 8LL * i + (jit ? next() % 7 : 0)) * ux);
+	long long Y = p1;
+	for(long i = 0; i < N; i++)
+	{
+		long long v;
+		if(yk == 0) v = p1;
+		else if(yk == 1) v = p1 + p2 * i;
+		else if(yk == 2) v = p1 + next() % (2 * p2 + 1) - p2;
+		else if(yk == 3)
+		{
+			if(i > 0)
+				Y += next() % (2 * p2 + 1) - p2;
+			v = Y;
+		}
+		else if(yk == 4) v = p1 + p2 * ((i % 16 < 8) ? (i % 16) : 16 - (i % 16));
+		else v = p1 + ((i == p2) ? 1000 : 0);
+		ys.push_back(double(v) * uy);
 	}
 }
 static std::vector<double> column(const std::vector<std::vector<double>>& rows, size_t k, bool sort_unique)
@@ -203,19 +473,19 @@ static void handler(vh::Reader& r, vh::Out& o)
 		double xd = r.num(), fd = r.num();
 		std::vector<double> xs = r.list(), ys = r.list();
 		Interpolation obj(xs, ys, xd, fd);
-		run1(obj, scaled(xd, xs), op == "t1", r, o);
+		run1(obj, scaled(xd, xs), op == "t1" ? 1 : 0, r, o);
 	}
 	else if(op == "d1" || op == "e1")	// constructor from rows (x, f); e1 = history mode
 	{
 		double xd = r.num(), fd = r.num();
 		std::vector<std::vector<double>> rows = r.table();
 		Interpolation obj(rows, xd, fd);
-		run1(obj, scaled(xd, column(rows, 0, false)), op == "d1", r, o);
+		run1(obj, scaled(xd, column(rows, 0, false)), op == "d1" ? 1 : 0, r, o);
 	}
 	else if(op == "t0" || op == "h0")	// default constructor; h0 = history mode
 	{
 		Interpolation obj;
-		run1(obj, {-1.0, 0.0, 1.0}, op == "t0", r, o);
+		run1(obj, {-1.0, 0.0, 1.0}, op == "t0" ? 1 : 0, r, o);
 	}
 	else if(op == "t2" || op == "h2")	// h2 = history mode
 	{
@@ -236,6 +506,18 @@ static void handler(vh::Reader& r, vh::Out& o)
 	{
 		Interpolation_2D obj;
 		run2(obj, {-1.0, 0.0, 1.0}, {-1.0, 0.0, 1.0}, true, r, o);
+	}
+	else if(op == "s1" || op == "r1")	// several 1-D objects (r1: queries on the live objects)
+		session1(op == "s1", r, o);
+	else if(op == "s2" || op == "r2")
+		session2(op == "s2", r, o);
+	else if(op == "b1" || op == "k1")	// long table given by rule; b1: one copy per operation, k1: the live object
+	{
+		double xd = r.num(), fd = r.num();
+		std::vector<double> xs, ys;
+		rule_table(r, xs, ys);
+		Interpolation obj(xs, ys, xd, fd);
+		run1(obj, scaled(xd, xs), op == "b1" ? 2 : 0, r, o);
 	}
 	else
 		o.w("HARNESSERR unknown_op");
